@@ -214,6 +214,11 @@ def replay(ctx, inp):
             return {"fails": r is not False, "observed": r}
         except Exception as e:  # noqa: BLE001
             return {"fails": True, "observed": errname(e)}
+    if op == "lp-sha512-prefix":
+        from libpass.hashers.sha_crypt import SHA512Hasher
+
+        hs = SHA512Hasher(rounds=1000).hash("pw", salt="abc")
+        return {"fails": not (hs.startswith("$6$") and SHA512Hasher(rounds=1000).verify(hs, "pw")), "observed": hs}
     if op == "libpass-identify-newline":
         from libpass.hashers.bcrypt import BcryptHasher
 
